@@ -53,6 +53,29 @@ def nested_env(rng, nlevels=None):
     return [a, b] if rng.random() < 0.5 else [b, a]
 
 
+def component_env(rng, R=10):
+    """a DisjointShape and a polygon that crosses only one of its components (any of them, not just the largest)"""
+    for _ in range(100):
+        d = G.disjoint_shape(rng, R=R, ncomp=rng.choice([2, 3]))
+        if d[0] != "D":
+            continue
+        k = rng.randrange(len(d[1]))
+        cj = O.shape_jordans(d[1][k])[0]
+        v = cj[rng.randrange(len(cj))][0]
+        others = [j for i, c in enumerate(d[1]) if i != k for j in O.shape_jordans(c)]
+        for _ in range(30):
+            b = G.ccw(G.star_polygon(rng, n=rng.randint(3, 5), R=max(2, R // 4), center=(float(v[0]), float(v[1]))))
+            bj = G.verts_to_jordan(b)
+            env = [d, ("S", bj)]
+            if not env_general_position(env) or G.count_crossings([cj], [bj]) < 2:
+                continue
+            if any(G.count_crossings([j], [bj]) for j in others):
+                continue
+            if all(G.polys_disjoint(G.jordan_verts(j), b) for j in others):
+                return env if rng.random() < 0.5 else env[::-1]
+    return None
+
+
 def crossing_count(env):
     js = [O.shape_jordans(s) for s in env]
     n = 0
@@ -128,6 +151,11 @@ def gen_cases(ctx, nsingle, nnested, R=10, float_stream=True):
         env = nested_env(rng, nlevels=[4, 5, 3][i % 3])
         for op in OPS2:
             yield {"env": env, "expr": (op, ("var", 0), ("var", 1)), "num": "frac"}
+    for i in range(max(3, nsingle // 8)):
+        env = component_env(rng, R=rng.choice([8, 12]))
+        if env is not None:
+            for op in OPS2:
+                yield {"env": env, "expr": (op, ("var", 0), ("var", 1)), "num": "frac"}
     for i in range(nnested):
         nv = rng.choice([2, 3, 3])
         env = gen_env(rng, nv, R=rng.choice([6, 10]), den=rng.choice([1, 1, 2]), kinds=("S", "S", "S", "C", "U", "D"))
